@@ -45,7 +45,7 @@ func c16nth(i int, e string) string {
 	return "(first (rest (rest " + e + ")))"
 }
 
-var c16routes = []string{"name", "alias", "param", "computed", "apply", "map", "tail", "recursive", "strict-twin"}
+var c16routes = []string{"name", "alias", "param", "computed", "apply", "map", "tail", "recursive", "strict-twin", "tail-redefined", "name-redefined"}
 
 // c16program builds the program for one (signature, usages, route, failing
 // argument, extra variadic arguments) point, or nil when the route does not apply.
@@ -130,6 +130,30 @@ func c16program(lazy []bool, use []string, variadic bool, route string, failAt i
 		call = "(lz 1 " + strings.Join(dummies, " ") + ")"
 		// arguments of the recursive call are evaluated inside lz: v must be visible there
 		def = "(def v 5) " + def
+	case "tail-redefined", "name-redefined":
+		// the function replaces an earlier one of the same name whose lazy positions are the opposite
+		var flipped []string
+		for i := 0; i < k; i++ {
+			p := c16names[i]
+			if !lazy[i] {
+				p = "#" + p
+			}
+			flipped = append(flipped, p)
+		}
+		if route == "name-redefined" {
+			def = "(defn lz [" + strings.Join(flipped, " ") + "] 0) (defn lz [" + ps + "] " + body + ")"
+			call = "(lz " + as + ")"
+		} else {
+			var dummies []string
+			for i := 0; i < k; i++ {
+				dummies = append(dummies, fmt.Sprintf("(t %d 0)", 90+i))
+			}
+			if variadic {
+				return nil
+			}
+			def = "(def v 5) (defn lz [n " + strings.Join(flipped, " ") + "] 0) (defn lz [n " + ps + "] (cond (== n 0) " + body + " (lz 0 " + as + ")))"
+			call = "(lz 1 " + strings.Join(dummies, " ") + ")"
+		}
 	case "strict-twin":
 		// the same function without any lazy parameter: all arguments exactly once, in order
 		for _, l := range lazy {
@@ -162,7 +186,7 @@ func c16program(lazy []bool, use []string, variadic bool, route string, failAt i
 		post = "(list res " + strings.Join(posts, " ") + " " + strings.Join(posts, " ") + ")"
 	}
 	src := def + " (defn caller [v] " + call + ") (def res (caller 5)) " + post
-	if route == "tail" || route == "recursive" {
+	if route == "tail" || route == "recursive" || route == "tail-redefined" {
 		src = def + " (def res " + call + ") " + post
 	}
 	return Parse(src)
@@ -207,7 +231,7 @@ func init() {
 		ID:    "C16",
 		Level: "exploration",
 		Rule: "every signature of 1..3 parameters each strict or lazy, with and without a variadic tail x every assignment of a usage {none, force, force twice, substitute, closure forcing after return, force under a shadowing let} " +
-			"to the lazy parameters x 9 call routes {name, alias, parameter, computed callee, apply, map, tail self-call, non-tail recursion, strict twin called twice} x {no failing argument, argument j fails} x 0..2 variadic extras; " +
+			"to the lazy parameters x 11 call routes {name, alias, parameter, computed callee, apply, map, tail self-call, non-tail recursion, strict twin called twice, and name / tail self-call after redefining a function whose lazy positions were the opposite} x {no failing argument, argument j fails} x 0..2 variadic extras; " +
 			"arguments are traced host calls reading the caller's variable; value, error and trace compared with the reference evaluator (thunk + memo + caller's scope)",
 		Assumptions: []string{"R1 models lazy parameters as memoised thunks over the caller's scope; apply/map wrap evaluated values; the typed func declaration route is not generated"},
 		Run: func(c *engine.Ctx) {
